@@ -46,6 +46,20 @@ theorem spawn_eq (i k : Nat) : Juniper.Gen.Merge.smSpawnCond i k = decide (i < k
   have e : ((i : Int) < (k : Int)) ↔ i < k := by omega
   simp [e]
 
+/-- Facts of `stream.Merge` that the model does not interpret (the conditions of the loop's branches,
+the order of `*s.senderErr = err` and `close(s.senderDone)`, the spawn loop): a change makes this
+obligation fail. -/
+theorem loop_facts :
+    Juniper.Gen.Merge.smEndCond = "err==End" ∧ Juniper.Gen.Merge.smErrCond = "err!=nil" ∧
+    Juniper.Gen.Merge.smSendErrCond = "err!=nil" ∧
+    Juniper.Gen.Merge.pipeSenderCloseStmts = ["*s.senderErr = err", "close(s.senderDone)"] ∧
+    Juniper.Facts.sameArms Juniper.Gen.Merge.pipeSendArms
+      [.recv "ctx.Done()", .recv "s.streamDone", .recv "s.senderDone", .send "s.c"] = true ∧
+    Juniper.Facts.sameArms Juniper.Gen.Merge.pipeNextArms
+      [.recv "ctx.Done()", .recv "s.c", .recv "s.senderDone"] = true ∧
+    (∀ i k : Nat, Juniper.Gen.Merge.smSpawnCond i k = decide (i < k)) :=
+  ⟨by decide, by decide, by decide, by decide, by decide, by decide, spawn_eq⟩
+
 theorem senderClose_eq (s : St V) (e : Option Err) :
     senderClose s e = { s with senderCloses := s.senderCloses + 1, senderErr := e } := by
   simp [senderClose, senderCloseCloses_eq]
